@@ -66,7 +66,7 @@ func c16Matrix(c *Case, mi int) {
 
 // ---- sampled receivers / arguments, supplied through the input document
 
-var c16StrPool = []string{"", "a", "aBc", "abc,def", ",a,,b,", "aaa", "aaaa", "héllo wörld", "日本語テキスト", "ǅ ß ı İ", "a\tb\nc", "x--y--z", "--", "ab ab ab", "\"quoted\" 'single'", "\\back\\slash", "𝒳 𝓎", "MiXeD 123 ÄÖÜ", "ﬁ ﬂ", "a\u0000b"}
+var c16StrPool = []string{"", "a", "aBc", "abc,def", ",a,,b,", "aaa", "aaaa", "héllo wörld", "日本語テキスト", "ǅ ß ı İ", "a\tb\nc", "x--y--z", "--", "ab ab ab", "\"quoted\" 'single'", "\\back\\slash", "𝒳 𝓎", "MiXeD 123 ÄÖÜ", "ﬁ ﬂ", "a\u0000b", "a\uFFFDB\uFFFD", "\uFFFD"}
 var c16SepPool = []string{"", ",", "a", "aa", "--", " ", "é", "ab", "日", "zzz", "abc,def,ghi", "\t", "\""}
 
 func randUnicodeString(rng *rand.Rand) string {
@@ -374,7 +374,8 @@ func c16DirectReceivers(c *Case) {
 // sequence): length counts bytes, so a case-mapped copy has the same length wherever no character changes its
 // encoded size, the bytes that are no characters stay as they are, and split('') gives the pieces back
 func c16RawBytes(c *Case) {
-	raws := []string{"A\xffB", "\xff", "ab\xc3", "\xe6\x97", "x\x80y\x80", "\xfe\xffok", "é\xffÉ", "\xc3\xa9\xc3", "Z\xf0\x9f\x98z", "plain"}
+	raws := []string{"A\xffB", "\xff", "ab\xc3", "\xe6\x97", "x\x80y\x80", "\xfe\xffok", "é\xffÉ", "\xc3\xa9\xc3", "Z\xf0\x9f\x98z", "plain",
+		"a\uFFFDB\uFFFD", "\uFFFD", "\uFFFD\xff\uFFFDq", "\xef\xbf", "\uFFFE\uFFFF\U0010FFFFz"} // (U+FFFD itself is a character like any other)
 	for _, raw := range raws {
 		for _, meth := range []string{"upper", "lower"} {
 			prog := "BEGIN { s = \"" + raw + "\"; t = s." + meth + "(); print s.length(), t.length(), t." + meth + "() == t, s.split('').length() >= 1; u = ''; for (p in s.split('')) { u = u + p } print u == s, u.length(); print t }"
@@ -389,6 +390,25 @@ func c16RawBytes(c *Case) {
 			} else {
 				c.Violation(fmt.Sprintf("%q.%s(): want %q, got %s (%s) %q", raw, meth, exp, lib.Class, lib.Msg, clip(string(lib.Stdout), 80)), nil, map[string]any{"program": prog})
 			}
+		}
+	}
+}
+
+// every split() gives a new array: what a caller does to one result is not seen in the next, equal call
+func c16SplitFresh(c *Case) {
+	for _, t := range []struct{ prog, want string }{
+		{"BEGIN { s = '2024-05-17'; p = s.split('-'); p.pop(); p.push('x'); p[0] = 'y'; q = s.split('-'); print q, p; q.popfirst(); print s.split('-'), '2024-05-17'.split('-').length() }", "[\"2024\", \"05\", \"17\"] [\"y\", \"05\", \"x\"]\n[\"2024\", \"05\", \"17\"] 3\n"},
+		{"{ parts = $.d.split('-'); print parts.popfirst(), parts.length(); parts.push('tail') }", "a 2\na 2\na 2\n"},
+		{"function first(s) { w = s.split(' '); r = w.popfirst(); w[0] = 'gone'; return r } BEGIN { print first('to be or'), first('to be or'), first('to be or'); print 'to be or'.split(' ') }", "to to to\n[\"to\", \"be\", \"or\"]\n"},
+		{"BEGIN { a = 'x,y'.split(','); b = 'x,y'.split(','); a[0] = 1; b.push(2); print a, b, 'x,y'.split(','); c = ''.split(''); c.push(1); print ''.split(''), 'ab'.split(''), 'ab'.split('').pop(), 'ab'.split('') }", "[1, \"y\"] [\"x\", \"y\", 2] [\"x\", \"y\"]\n[] [\"a\", \"b\"] b [\"a\", \"b\"]\n"},
+	} {
+		lib := RunLib(t.prog, []InFile{{Name: "in.json", Data: []byte(`{"d": "a-b-c"} {"d": "a-b-c"} {"d": "a-b-c"}`)}}, nil, RunOpts{Budget: 100000})
+		c.NonTrivial("split-fresh:" + t.prog)
+		c.Count("split_result_independence_programs")
+		if lib.Class == "ok" && string(lib.Stdout) == t.want {
+			c.Held()
+		} else {
+			c.Violation(fmt.Sprintf("results of equal split() calls are independent arrays: want %q, got %s (%s) %q | %s", t.want, lib.Class, lib.Msg, clip(string(lib.Stdout), 100), t.prog), nil, map[string]any{"program": t.prog})
 		}
 	}
 }
@@ -543,6 +563,7 @@ func c16Run(c *Case) {
 		}
 		if c.Idx == 2 {
 			c16RawBytes(c)
+			c16SplitFresh(c)
 		}
 	case c.Idx < nm+ns:
 		c16Sampled(c)
